@@ -1320,3 +1320,44 @@ def _ss_show(v):
     if v[0] in ('bool', 'int'):
         return str(v[1]).lower()
     return 'a value the interpreter does not follow'
+
+
+# ------------------------------------------------------------------------------------------------ CMP-KEEP
+
+def cmp_keep(progs):
+    """A member function of a set (not a constructor) that builds another set of the same class and lets the comparator parameter of the
+    constructor take its default argument works with a default-constructed comparator; assigned to / swapped with *this it replaces the
+    stored one."""
+    rr = RuleResult('CMP-KEEP', 'no member function of FlatSet / SmallSet builds a set of its own class with a defaulted comparator argument: a temporary set made inside the '
+                                'set is given the stored comparator (key_comp() / compRef()), otherwise sorting, duplicate removal and - once assigned or swapped in - every '
+                                'later decision use Compare() instead of the comparator the set was constructed with')
+    from .sets import compare_types, norm
+    seen = set()
+    for prog in progs:
+        cmps = compare_types(prog)
+        if not cmps:
+            continue
+        for f in prog.amc_functions():
+            if f.get('body') is None or f.get('clsq') not in (FS, SS) or f.get('kind') in ('ctor', 'dtor') or f.get('static'):
+                continue
+            for c in walk(f['body']):
+                if c.get('k') != 'construct' or (c.get('clsq') or '') != f.get('clsq'):
+                    continue
+                ctor = prog.fns.get(c.get('fn'))
+                if ctor is None:
+                    continue
+                ps = ctor.get('params', [])
+                idx = [i for i, p_ in enumerate(ps) if norm(p_['t']) in cmps]
+                if not idx:
+                    continue                      # copy / move constructor and the like: the comparator travels with the source
+                args = c.get('args', []) or []
+                for i in idx:
+                    defaulted = i >= len(args) or bool(A.strip(args[i]).get('defarg') if isinstance(args[i], dict) else False) or bool(args[i].get('defarg') if isinstance(args[i], dict) else False)
+                    rr.instance('%s|%s' % (f['key'], prog.site(f, c)), {'function': f['pname'][:130], 'comparator argument defaulted': defaulted})
+                    if defaulted and f['key'] not in seen:
+                        seen.add(f['key'])
+                        rr.add(Finding('CMP-KEEP', f['key'], prog.site(f, c),
+                                       '%s builds a %s with a default-constructed comparator (the comparator parameter of the constructor takes its default argument): the '
+                                       'stored comparator is not used for that set, and is lost if the temporary is assigned to *this' % (short(f['name']), f.get('clsq').split('::')[-1]),
+                                       where=f['pname'], unit=prog.uname))
+    return rr
